@@ -187,34 +187,182 @@ func genB(t *rapid.T) Case {
 	nops := rapid.IntRange(1, 25).Draw(t, "nops")
 	kinds := []string{"connect", "connect", "connect", "connect", "connect", "connect", "connect", "connect",
 		"disconnect", "disconnect", "disconnect", "disconnect",
-		"exit", "killdate", "markdead", "markdead", "markalive", "reg", "connectfail", "reopen"}
+		"exit", "killdate", "markdead", "markdead", "markalive", "reg", "connectfail", "reopen",
+		"restart-family", "restart-family", "restart-family", "restart-family"}
+	m := newModel(c)
+	scratch := summary{classes: map[string]int{}}
+	emit := func(op Op) {
+		c.Ops = append(c.Ops, op)
+		m.step(op, &scratch)
+	}
 	// one history in three starts by building a hub: agent 0 links 2..n-1 others (and, at n=3, the
 	// extra agent), so that agents with 3 and more links die / are re-parented often enough
 	if rapid.IntRange(0, 2).Draw(t, "hub") == 0 {
 		k := rapid.IntRange(2, n-1).Draw(t, "hub-links")
 		for i := 1; i <= k; i++ {
-			c.Ops = append(c.Ops, Op{K: "connect", A: 0, B: i})
+			emit(Op{K: "connect", A: 0, B: i})
 		}
 		if rapid.Bool().Draw(t, "hub-extra") {
-			c.Ops = append(c.Ops, Op{K: "connect", A: 0, B: -1})
+			emit(Op{K: "connect", A: 0, B: -1})
 		}
 		if rapid.Bool().Draw(t, "hub-dies") {
-			c.Ops = append(c.Ops, Op{K: rapid.SampledFrom([]string{"exit", "killdate", "markdead"}).Draw(t, "hub-death"), A: 0})
+			emit(Op{K: rapid.SampledFrom([]string{"exit", "killdate", "markdead"}).Draw(t, "hub-death"), A: 0})
 		}
 	}
 	for i := 0; i < nops; i++ {
 		op := Op{K: rapid.SampledFrom(kinds).Draw(t, "kind"), A: rapid.IntRange(0, n-1).Draw(t, "actor")}
 		switch op.K {
+		case "restart-family":
+			restartFamily(t, m, n, emit)
+			continue
 		case "connect":
 			op.B = rapid.IntRange(-1, n-1).Draw(t, "child")
+			op.B = preferOrphan(t, m, op.B)
 		case "disconnect":
 			op.B = rapid.IntRange(-1, n-1).Draw(t, "named")
 			op.F = rapid.IntRange(0, 9).Draw(t, "removed") == 0
 			op.R = rapid.Bool().Draw(t, "pick-child")
 		}
-		c.Ops = append(c.Ops, op)
+		emit(op)
 	}
 	return c
+}
+
+// ---------------------------------------------------------------- (b) aimed events around restarts
+
+func pickFrom(t *rapid.T, label string, from []int) int { // from is never empty when called
+	return from[rapid.IntRange(0, len(from)-1).Draw(t, label)]
+}
+
+// preferOrphan: while some agent in memory has a stored parent that was not restored by the
+// last restart, one connect in three names such an agent.
+func preferOrphan(t *rapid.T, m *model, b int) int {
+	if orph := m.orphans(); len(orph) > 0 && rapid.IntRange(0, 2).Draw(t, "name-orphan") == 0 {
+		return pickFrom(t, "orphan", orph)
+	}
+	return b
+}
+
+// restartFamily emits one of the event groups that involve a restart while TS_Links holds a
+// link of a session that is stored inactive:
+//
+//	cut      an agent that has links of its own is disconnected by its parent (built first
+//	         when there is none), then restart, one time in three twice: the agent is not
+//	         restored, its children are, the stored links (agent, child) stay
+//	orphan   a restored child whose stored parent is not in memory is named by a connect of
+//	         another agent; half of the time a restart follows
+//	back     the stored parent comes back (DEMON_INIT of a top-level agent, or named by a
+//	         connect of another agent - which may be its former child), then it reports the
+//	         connect of its former child; half of the time a restart follows
+//	twice    two restarts in a row
+func restartFamily(t *rapid.T, m *model, n int, emit func(Op)) {
+	fam := rapid.SampledFrom([]string{"cut", "cut", "orphan", "orphan", "orphan", "back", "back", "twice"}).Draw(t, "restart-family")
+	if fam == "twice" {
+		emit(Op{K: "reopen"})
+		emit(Op{K: "reopen"})
+		return
+	}
+	if fam == "cut" || len(m.orphans()) == 0 {
+		inner := m.inner()
+		if len(inner) == 0 { // build one: p -> x -> y
+			known := m.sortedKnown()
+			var linked, top []int
+			for _, x := range known {
+				if x >= n {
+					continue
+				}
+				if p, ok := m.parent[x]; ok && p < n {
+					linked = append(linked, x)
+				} else if !ok {
+					top = append(top, x)
+				}
+			}
+			x := -1
+			switch {
+			case len(linked) > 0:
+				x = pickFrom(t, "make-inner", linked)
+			case len(top) >= 2:
+				x = top[1]
+				emit(Op{K: "connect", A: top[0], B: x})
+			case len(top) == 1:
+				for i := 0; i < n; i++ {
+					if !m.known[i] {
+						x = i
+						break
+					}
+				}
+				if x < 0 {
+					return
+				}
+				emit(Op{K: "connect", A: top[0], B: x})
+			default:
+				return
+			}
+			y := -1
+			for i := 0; i < n; i++ { // a child for x: an unknown agent, else a known one outside x's ancestry
+				if i != x && !m.known[i] {
+					y = i
+					break
+				}
+			}
+			for i := n - 1; y < 0 && i >= 0; i-- {
+				if i != x && !m.anc(i, x) {
+					y = i
+				}
+			}
+			if y < 0 {
+				return
+			}
+			emit(Op{K: "connect", A: x, B: y})
+			inner = m.inner()
+			if len(inner) == 0 {
+				return
+			}
+		}
+		x := pickFrom(t, "inner", inner)
+		emit(Op{K: "disconnect", A: m.parent[x], B: x})
+		emit(Op{K: "reopen"})
+		if rapid.IntRange(0, 2).Draw(t, "again") == 0 {
+			emit(Op{K: "reopen"})
+		}
+		if fam == "cut" {
+			return
+		}
+	}
+	orph := m.orphans()
+	if len(orph) == 0 {
+		return
+	}
+	o := pickFrom(t, "orphan", orph)
+	var others []int
+	for _, x := range m.sortedKnown() {
+		if x != o && x < n {
+			others = append(others, x)
+		}
+	}
+	switch fam {
+	case "orphan":
+		if len(others) == 0 {
+			return
+		}
+		emit(Op{K: "connect", A: pickFrom(t, "new-parent", others), B: o})
+	case "back":
+		x := m.rows[o]
+		if x >= n || m.known[x] {
+			return
+		}
+		if via := rapid.IntRange(0, 2).Draw(t, "back-via"); via == 0 || len(others) == 0 {
+			emit(Op{K: "reg", A: x})
+		} else if via == 1 {
+			emit(Op{K: "connect", A: pickFrom(t, "bringer", others), B: x})
+		} else {
+			emit(Op{K: "connect", A: o, B: x}) // the former child brings its former parent back below itself
+		}
+		emit(Op{K: "connect", A: x, B: o})
+	}
+	if rapid.Bool().Draw(t, "restart-after") {
+		emit(Op{K: "reopen"})
+	}
 }
 
 // ---------------------------------------------------------------- (b) large universes, built shapes
@@ -323,9 +471,7 @@ func genLarge(t *rapid.T) Case {
 		emit(Op{K: "reopen"})
 	}
 
-	pick := func(label string, from []int) int { // from is never empty when called
-		return from[rapid.IntRange(0, len(from)-1).Draw(t, label)]
-	}
+	pick := func(label string, from []int) int { return pickFrom(t, label, from) }
 	// a deep sender: the deepest agent, an agent that has a parent, or any known agent
 	deepNode := func() int {
 		known := m.sortedKnown()
@@ -379,6 +525,7 @@ func genLarge(t *rapid.T) Case {
 		switch op.K {
 		case "connect":
 			op.B = rapid.IntRange(-1, n-1).Draw(t, "child")
+			op.B = preferOrphan(t, m, op.B)
 		case "disconnect":
 			op.B = rapid.IntRange(-1, n-1).Draw(t, "named")
 			op.F = rapid.IntRange(0, 9).Draw(t, "removed") == 0
@@ -390,7 +537,7 @@ func genLarge(t *rapid.T) Case {
 	nops := rapid.IntRange(1, 25).Draw(t, "nops")
 	for i := 0; i < nops; i++ {
 		switch rapid.SampledFrom([]string{"anc", "anc", "anc", "anc", "anc", "self", "cross", "cross", "cut", "cut", "cut",
-			"recut", "recut", "recut", "reopen", "reopen", "death", "alive",
+			"recut", "recut", "recut", "reopen", "reopen", "death", "alive", "restart-family", "restart-family", "restart-family", "restart-family",
 			"generic", "generic", "generic", "generic", "generic", "generic", "generic", "generic", "generic", "generic"}).Draw(t, "biased") {
 		case "anc": // a deep agent names its ancestor at a drawn distance
 			a := deepNode()
@@ -464,6 +611,8 @@ func genLarge(t *rapid.T) Case {
 			}
 		case "reopen":
 			emit(Op{K: "reopen"})
+		case "restart-family":
+			restartFamily(t, m, n, emit)
 		case "death": // an inner agent (parent and links) dies
 			var inner []int
 			for _, x := range m.sortedKnown() {
@@ -492,7 +641,7 @@ func genLarge(t *rapid.T) Case {
 func TestC09b(t *testing.T) {
 	core.Run(t, core.Spec[Case]{
 		Property: "C09", Sub: "b",
-		Rule: "random histories of 1..25 events over 3-5 agents (or 20-70, see SIZE/SHAPE below; ids from the whole 32-bit range incl. >= 2^31, 1..n registered at start; database file, a third each: fresh / created by the current code and opened again / a copy of the committed testdata/golden-schema.db made by the unchanged tree's db.DatabaseNew - labels db:fresh|existed|golden) with events reg, connect(p,c) for any pair incl. self / ancestor / an id never seen, failed connect, disconnect(p,x) incl. non-children, unknown ids and Removed=FALSE, exit, killdate, markdead, markalive, and reopen (~1 event in 20: a new Teamserver on the same file restores sessions and links as Start() does, then the history goes on - labels db:reopened, pivot-events-after-reopen, re-parenting-on-existing-db; a reopen is only performed while every stored link joins two active sessions); a violation that occurs on the golden file only, while its schema differs from a fresh one, is reported as schema|existing-database-differs-from-fresh|<tables>; one history in three starts with agent 0 linking 2..n-1 (+1) children and possibly dying, so that deaths with 3 and more links are frequent (labels death-links:0/1/2/3+); same oracle as (a). Non-trivial: a second link, a re-parenting, or a self/ancestor connect; distinct = (those four flags, links at death, death of a child, length bucket, child disconnect, reopened). SIZE/SHAPE dimension: about one history in six (label universe:large, agents:20-39|40-70; the others universe:small) runs over 20-70 agents and starts with the connects that build a shape by construction, each naming an id the teamserver has not seen (one callback registers and links the agent): shape:chain (depth from {15,16,17,18,31,32,33,64,65} or random 3..69), shape:star (15-60 links on one agent), shape:broom (chain + fan of 2-8 at its end), shape:two-chains (two roots, depths from {7,8,9,15,16,17,31,32,33} or random); one in four restarts right after the shape; then 1..25 events, about half aimed at the shape: a deep agent names its ancestor at a drawn distance (1, 2, 15, 16, 17, depth-1, depth, random) or itself, an agent is linked below an agent of another tree (connect-across-trees: chains are stacked), a parent disconnects a child in the middle and the cut-off subtree root is later named by one of its own descendants at a drawn distance or linked elsewhere (cut-subtree-reconnected-below-own-descendant[>=16-hops-down]), markalive of a cut-off agent, death of an inner agent, reopen in between (reopen-at-depth>=16); the rest as in the small universes. Labels max-depth:<=4|5-15|16-17|18-33|>33 (deepest agent reached in the model forest), cyclic-connect-at-distance:1-2|3-15 and cyclic-connect-at-distance>=16, self-connect-at-depth>=16. Oracle unchanged; with more than 8 sessions the routing task after each event is queued for every agent WITHOUT links only (each walk to the root passes through all ancestors, so every Parent pointer is still followed); distinct additionally records depth 5-15 / >=16 and whether a cyclic connect at distance >=16 was attempted",
+		Rule: "random histories of 1..25 events over 3-5 agents (or 20-70, see SIZE/SHAPE below; ids from the whole 32-bit range incl. >= 2^31, 1..n registered at start; database file, a third each: fresh / created by the current code and opened again / a copy of the committed testdata/golden-schema.db made by the unchanged tree's db.DatabaseNew - labels db:fresh|existed|golden) with events reg, connect(p,c) for any pair incl. self / ancestor / an id never seen, failed connect, disconnect(p,x) incl. non-children, unknown ids and Removed=FALSE, exit, killdate, markdead, markalive, and reopen (~1 event in 20: a new Teamserver on the same file restores sessions and links as Start() does, then the history goes on - labels db:reopened, pivot-events-after-reopen, re-parenting-on-existing-db; performed in every state, see RESTARTS below); a violation that occurs on the golden file only, while its schema differs from a fresh one, is reported as schema|existing-database-differs-from-fresh|<tables>; one history in three starts with agent 0 linking 2..n-1 (+1) children and possibly dying, so that deaths with 3 and more links are frequent (labels death-links:0/1/2/3+); same oracle as (a). Non-trivial: a second link, a re-parenting, or a self/ancestor connect; distinct = (those four flags, links at death, death of a child, length bucket, child disconnect, reopened). SIZE/SHAPE dimension: about one history in six (label agents:20-70) runs over 20-70 agents and starts with the connects that build a shape by construction, each naming an id the teamserver has not seen (one callback registers and links the agent): shape:chain (depth from {15,16,17,18,31,32,33,64,65} or random 3..69), shape:star (15-60 links on one agent), shape:broom (chain + fan of 2-8 at its end), shape:two-chains (two roots, depths from {7,8,9,15,16,17,31,32,33} or random); one in four restarts right after the shape; then 1..25 events, about half aimed at the shape: a deep agent names its ancestor at a drawn distance (1, 2, 15, 16, 17, depth-1, depth, random) or itself, an agent is linked below an agent of another tree (chains are stacked), a parent disconnects a child in the middle and the cut-off subtree root is later named by one of its own descendants at a drawn distance or linked elsewhere (cut-subtree-reconnected-below-own-descendant), markalive of a cut-off agent, death of an inner agent, reopen in between (reopen-at-depth>=16); the rest as in the small universes. Labels max-depth:<=4|5-15|16-17|18-33|>33 (deepest agent reached in the model forest), cyclic-connect-at-distance:1-2|3-15 and cyclic-connect-at-distance>=16. Oracle unchanged; with more than 8 sessions the routing task after each event is queued for every agent WITHOUT links only (each walk to the root passes through all ancestors, so every Parent pointer is still followed); distinct additionally records depth 5-15 / >=16 and whether a cyclic connect at distance >=16 was attempted. RESTARTS with stored links of inactive sessions: a restart restores only the sessions stored as active, so a stored link whose parent or child is inactive (after the disconnect of an agent that has links itself, a disconnect by a non-parent, a connect sent by a dead session) has no counterpart in the restored graph. The unchanged tree keeps such a row; rows found in that state right after a restart are DORMANT and tolerated while they stay unchanged (a dormant row that becomes a live link or disappears is ordinary again); every other row must be a live link, every live link has its row, and no agent may be the child in two rows, dormant or not (db|two-stored-parents). In both universe sizes one event in six (small) / eight (large) is a restart family: cut (an agent with links is disconnected by its parent - built first if there is none - then restart, one time in three twice: reopen-right-after-disconnect-of-an-inner-agent, two-reopens-in-a-row, reopen-with-stored-link-to-inactive-session), orphan (another agent reports the connect of a restored child whose stored parent is not in memory: connect-names-agent-whose-stored-parent-is-not-in-memory; half of the time a restart follows: reopen-after-connect-naming-an-orphan), back (the stored parent registers again - top-level, below another agent or below its former child - and reports the connect of its former child: orphan-linked-back-below-its-re-registered-stored-parent), twice; and while such an orphan exists one generic connect in three names it (connect-names-agent-with-other-dormant-stored-parent: the stored parent is in memory or the named agent itself was not restored). A family adds up to 6 events to the drawn 1..25. The oracle is evaluated after each of these events and after each restart",
 		Gen:   genB, Check: checkCase, Classify: classify,
 		Assumptions: assumptions,
 	})
